@@ -6,6 +6,7 @@ open GlueVerif.C07
 #print axioms impl_delayed_refines_held
 #print axioms spec_silent_while_delayed
 #print axioms spec_queue_in_order
+#print axioms spec_queue_not_ignored
 #print axioms spec_queue_complete
 #print axioms spec_delay_block
 #print axioms spec_exactly_once
